@@ -48,7 +48,7 @@ func decisionAction(v ssa.Value) (string, string) {
 }
 
 func fallbackFacts(b *ssa.BasicBlock) (notNone, notCompat bool) {
-	for _, cf := range condFacts(b) {
+	for _, cf := range normFacts(condFacts(b)) {
 		// a miss in a table keyed by the rejecting behaviours: `if r, rejects := table[behaviour]; rejects {…}` not taken
 		if ex, ok := cf.Cond.(*ssa.Extract); ok && ex.Index == 1 && !cf.True && theCtx != nil {
 			if lk, ok := ex.Tuple.(*ssa.Lookup); ok && lk.CommaOk {
@@ -969,19 +969,58 @@ func checkC14(c *Ctx, r *Report) {
 	if pp := c.Fn("internal/adapter/translator/anthropic", "(*Translator).PreparePassthrough"); pp != nil {
 		key := fname(pp) + ":original-bytes-and-path"
 		okBody, okPath := false, false
+		// the request literal may be built in a phase helper of the translator: the Body stored there must still be the
+		// byte-slice parameter of PreparePassthrough, handed down unchanged
+		var fromOwnParam func(f *ssa.Function, v ssa.Value, depth int) bool
+		fromOwnParam = func(f *ssa.Function, v ssa.Value, depth int) bool {
+			prm, isP := v.(*ssa.Parameter)
+			if !isP || depth == 0 {
+				return false
+			}
+			if f == pp {
+				return true
+			}
+			idx := -1
+			for i, fp := range f.Params {
+				if fp == prm {
+					idx = i
+				}
+			}
+			sites := c.staticCallSites(func(ci callInfo) bool { return ci.Static == f })
+			if idx < 0 || len(sites) == 0 {
+				return false
+			}
+			for _, site := range sites {
+				cc := getCall(site)
+				if idx >= len(cc.Args) || !fromOwnParam(site.Parent(), cc.Args[idx], depth-1) {
+					return false
+				}
+			}
+			return true
+		}
+		scope := []*ssa.Function{pp}
 		eachInstr(pp, func(in ssa.Instruction) {
-			st, ok := in.(*ssa.Store)
-			if !ok {
-				return
-			}
-			if isField(st.Addr, "internal/adapter/translator", "PassthroughRequest", "Body") {
-				_, okBody = st.Val.(*ssa.Parameter)
-			}
-			if isField(st.Addr, "internal/adapter/translator", "PassthroughRequest", "TargetPath") {
-				s, _ := constString(st.Val)
-				okPath = s == "/v1/messages"
+			if cc := getCall(in); cc != nil {
+				if sc := cc.StaticCallee(); sc != nil && sc.Blocks != nil && sc.Pkg == pp.Pkg {
+					scope = append(scope, sc)
+				}
 			}
 		})
+		for _, g := range scope {
+			eachInstr(g, func(in ssa.Instruction) {
+				st, ok := in.(*ssa.Store)
+				if !ok {
+					return
+				}
+				if isField(st.Addr, "internal/adapter/translator", "PassthroughRequest", "Body") {
+					okBody = fromOwnParam(g, st.Val, 3)
+				}
+				if isField(st.Addr, "internal/adapter/translator", "PassthroughRequest", "TargetPath") {
+					s, _ := constString(st.Val)
+					okPath = s == "/v1/messages"
+				}
+			})
+		}
 		if okBody && okPath {
 			r.OK("C14-R2", key, pp.Pos(), "Body is the handler's buffered bytes (same slice), TargetPath is /v1/messages")
 		} else {
